@@ -25,8 +25,8 @@ static int sampler_main(int argc, char **argv)
     uint64_t seed = strtoull(argv[1], NULL, 0);
     size_t n = strtoull(argv[2], NULL, 0);
     const char *s = argv[3];
-    double p[64]; int np = 0;
-    for (int i = 4; i < argc && np < 64; i++) p[np++] = strtod(argv[i], NULL);
+    static double p[4096]; int np = 0;
+    for (int i = 4; i < argc && np < 4096; i++) p[np++] = strtod(argv[i], NULL);
     cmb_random_initialize(seed);
     double *out = malloc(4096 * sizeof *out);
     struct cmb_random_alias *al = NULL;
